@@ -9,7 +9,7 @@ from .c04 import fresh_schema_name
 
 C02_FILES = ["Properties/C02.v", "Proofs/ExecErrors.v", "Proofs/ExecOrigins.v", "Proofs/ExecRefine.v", "Proofs/CollectRefine.v"]
 KINDS = ["raise", "raise_coercible", "raise_gql_ext", "exc_value", "null", "garbage", "scalar_for_composite", "bad_typename", "exc_item",
-         "bad_type_item", "null_item", "garbage_item", "coerce_null", "rec_parent", "attr_raises"]
+         "bad_type_item", "null_item", "garbage_item", "coerce_null", "rec_parent", "attr_raises", "foreign_enum"]
 
 
 def expand_factory(tier_):
